@@ -10,20 +10,25 @@ class Boom(Exception):
     pass
 
 
+class BoomType(Boom, TypeError):
+    """a source failure that is also a TypeError (loaders must not mistake it for a driver complaint)"""
+
+
 class Source(object):
-    def __init__(self, rows, fail_at):
+    def __init__(self, rows, fail_at, exc=None):
         self.rows, self.fail_at = rows, fail_at
+        self.exc = exc or Boom
 
     def __iter__(self):
         if self.fail_at == 0:
-            raise Boom()
+            raise self.exc()
         yield ('a', 'b')
         for i, r in enumerate(self.rows):
             if self.fail_at == i + 1:
-                raise Boom()
+                raise self.exc()
             yield r
         if self.fail_at == len(self.rows) + 1:
-            raise Boom()
+            raise self.exc()
 
 
 class RecCursor(object):
@@ -136,7 +141,7 @@ def run(ctx):
             c0.executemany('INSERT INTO t VALUES (?, ?)', prior)
             c0.commit()
             c0.close()
-            src = Source(rows, fail)
+            src = Source(rows, fail, BoomType if n % 2 else Boom)
             fn = etl.todb if trunc else etl.appenddb
             conn = None
             raised = None
